@@ -35,7 +35,7 @@ FIRST = {  # what happened on the FIRST run against each change, before any stre
     "C13_r2_2": "missed (no field id above 255 in the family) -> ids 1 / 256 / 65537, whose order changes when narrowed to 8 or 16 bits",
     "C01_r3_b": "missed (the priming only made successful calls) -> aborted encode/decode calls in the history priming",
     "C02_r3_b": "NOT CAUGHT, by decision: needs the parsed FcpV2 tree to be edited in place (fcp.structs[i] = other) - outside the property's domain (schemas as the front end produced them); judging that would flag correct caches",
-    "C03_r3_b": "NOT CAUGHT: only the generated rpc envelope structs (<Svc>Input/Output, ServiceId) are affected - rpc/service headers are outside the C03 claim",
+    "C03_r3_b": "missed for three sessions (rpc envelope structs were outside the C03 family) -> <Payload>Input/Output envelopes with the hand-written 8+8 bit header are family members",
     "C05_r3_a": "missed (own DBC reader masked bit 31 of BO_ ids) -> extended-frame flag read and compared",
     "C05_r3_b": "inconclusive (the replay reused one encoder for all bindings and so reproduced the memo bug on both sides) -> fresh encoder per binding in the replay",
     "C08_r3_a": "missed (the token stand-in answered str() with a Python repr, so an index keyed by token text never matched) -> stand-ins faithful to lark tokens",
